@@ -1,8 +1,12 @@
 package string_helper
 
-import "sort"
-
+// StringArrayContains reports whether s contains searchterm. The callers pass
+// lists in arbitrary order, so this must not assume s is sorted.
 func StringArrayContains(s []string, searchterm string) bool {
-	i := sort.SearchStrings(s, searchterm)
-	return i < len(s) && s[i] == searchterm
+	for _, item := range s {
+		if item == searchterm {
+			return true
+		}
+	}
+	return false
 }
